@@ -101,6 +101,14 @@ def check(ctx):
                            function=e.func, construct="%s/idle-without-close" % e.func,
                            msg="the protocol returns to IDLE in context %s without closing the transport: connect() is honoured again on the "
                                "same connection (second CONNECT), and timers armed while CONNECTING keep writing" % tr.label(), trigger=tr.label())
+                    # closing is not enough: a real transport reports the loss later, and until it does the connection is the same
+                    # one - a connect() made in between (from the errback that has just fired, say) is honoured by the IDLE state and
+                    # writes a second CONNECT on it.  Only the loss report itself may bring the protocol back to IDLE.
+                    ctx.ob("W5", "%s the protocol becomes IDLE only when the transport reports the loss (%s)" % (cq, tr.label()), False, where=where(e),
+                           function=e.func, construct="idle-before-loss/%s" % tr.label(),
+                           msg="the protocol returns to IDLE in context %s, before the transport has reported the loss of the connection it "
+                               "closes: until connectionLost() runs, connect() is honoured again and writes a second CONNECT on the same "
+                               "connection" % tr.label(), trigger=tr.label())
         # W6
         for tr in lc.loss:
             ws = [e for e in tr.events if e.kind == "WRITE"]
